@@ -1660,7 +1660,8 @@ sexp sexp_make_vector_op (sexp ctx, sexp self, sexp_sint_t n, sexp len, sexp dfl
   sexp vec, *x;
   sexp_sint_t i, clen = sexp_unbox_fixnum(len);
   if (! clen) return sexp_global(ctx, SEXP_G_EMPTY_VECTOR);
-  if (clen < 0 || clen > SEXP_MAX_VECTOR_LENGTH)
+  if (clen < 0 || clen > SEXP_MAX_VECTOR_LENGTH
+      || (sexp_uint_t)clen > (SEXP_MAX_FIXNUM - sexp_sizeof(vector)) / sizeof(sexp))
     return sexp_xtype_exception(ctx, self, "vector length out of range", len);
   vec = sexp_alloc_tagged(ctx, sexp_sizeof(vector) + clen*sizeof(sexp),
                           SEXP_VECTOR);
